@@ -16,7 +16,7 @@ KEY = jax.random.key(0)
 
 QUICK = [
     "normal", "flip", "categorical", "inner2", "innerF", "vmap(inner1)", "vmap(innerS;0,None)", "vmap(innerV;axis1)", "repeat(inner1)",
-    "scan(walk)", "scan(kern2)", "switch(inner1,inner2)", "switch(inner1,inner2s)", "switch3", "mask(inner1)", "dimap(inner1)",
+    "scan(walk)", "scan(kern2)", "scan(kernX)", "switch(inner1,inner2)", "switch(inner1,inner2s)", "switch3", "mask(inner1)", "dimap(inner1)",
     "map(inner2)", "contramap(innerS)", "or_else(inner1,inner2s)", "mix(inner1,inner2)", "composed", "static(vmap)",
     "static(scan)", "static(switch)", "static(mask)", "static(dimap;w)",
 ]
